@@ -366,6 +366,17 @@ def band(a, b):
                 if r is not None:
                     break
     if r is None:
+        # (x == c2) & (x != c1) = (x == c2) for different constants: "Y == 0" makes X = Y ^ k (k != 0) non-zero
+        for x, y in ((a, b), (b, a)):
+            if _nz_excluded_by(x, y):
+                r = y
+                break
+    if r is None:
+        # thresholds on one quantity: (n >= i) & (n >= j) = n >= max(i, j)
+        ga, gb = _ge_atom(a), _ge_atom(b)
+        if ga is not None and gb is not None and (ga[0] is gb[0] or ga[0] == gb[0]):
+            r = a if ga[1] >= gb[1] else b
+    if r is None:
         # "X != 0" & y = "X != 0" when every possibly-set bit of X forces a literal under which the small function y is true
         for x, y in ((a, b), (b, a)):
             if y.kind == 's' and x.kind == 's' and len(x.sup) == 1 and x.sup[0][0] == '@' and x.tt == (0, 1):
@@ -379,6 +390,45 @@ def band(a, b):
         r = _band(a, b)
     _MEMO[key] = r
     return r
+
+
+def _nz_lit(x):
+    """(atom, polarity) when x is a literal of an 'X != 0' atom"""
+    if x.kind == 's' and len(x.sup) == 1 and x.sup[0][0] == '@':
+        at = ATOMS[x.sup[0][1]]
+        if at.kind == 'nz' and hasattr(at.payload, 'bits'):
+            return at, x.tt == (0, 1)
+    return None
+
+
+def _nz_excluded_by(x, y):
+    """x is "X != 0", y is "Y == 0", and X differs from Y exactly by complementing some bits (X = Y ^ k, k != 0): y implies x"""
+    lx, ly = _nz_lit(x), _nz_lit(y)
+    if lx is None or ly is None or not lx[1] or ly[1] or lx[0] is ly[0]:
+        return False
+    xb, yb = lx[0].payload.bits, ly[0].payload.bits
+    if len(xb) != len(yb):
+        return False
+    flipped = False
+    for p_, q_ in zip(xb, yb):
+        if p_ is q_:
+            continue
+        if p_ is bnot(q_):
+            flipped = True
+            continue
+        return False
+    return flipped
+
+
+def _ge_atom(x):
+    """(term, k) when x is the positive literal of a comparison atom `term >= k` with a constant k"""
+    if x.kind == 's' and len(x.sup) == 1 and x.sup[0][0] == '@' and x.tt == (0, 1):
+        at = ATOMS[x.sup[0][1]]
+        if at.kind == 'cmp' and isinstance(at.payload, tuple) and len(at.payload) == 3 and at.payload[0] == 'Ge':
+            k = at.payload[2]
+            if hasattr(k, 'known') and k.known():
+                return at.payload[1], k.uval()
+    return None
 
 
 def _forces_small(q, y):
@@ -554,6 +604,11 @@ def bite(c, a, b):
         return a
     if c is C0:
         return b
+    # constant branches are plain conjunctions / disjunctions (which know more identities than a raw truth table)
+    if b is C0:
+        return band(c, a)
+    if a is C0:
+        return band(bnot(c), b)
     if c.kind == 's' and len(c.sup) == 1 and c.sup[0][0] == '@' and ATOMS[c.sup[0][1]].kind == 'nz':
         # if X != 0 then (q & !X[j]) else q   =   q & !X[j]      (X == 0 makes every X[j] false)
         at = ATOMS[c.sup[0][1]]
